@@ -1,9 +1,9 @@
 ---------------------------- MODULE ProgUniverse ----------------------------
 (***************************************************************************)
 (* The bounded universe of (program, environment) pairs shared by MCInterp *)
-(* and MCRefEval.  Every element is [p |-> program, e |-> environment,     *)
-(* k |-> class name]; the class is only used for coverage counts and to    *)
-(* select the classic part of the universe (MCRefEval).                    *)
+(* and MCRefEval: the sequence UniverseSeq (ClassicSeq = its classic part). *)
+(* Every element is [p |-> program, e |-> environment, k |-> class name];  *)
+(* the class is only used for coverage counts.                             *)
 (*                                                                         *)
 (* Grammar (values are tiny on purpose: pure-TLA+ bignum arithmetic):      *)
 (*   leaves   (q . v) for v in a boundary alphabet; environment paths      *)
